@@ -659,6 +659,7 @@ class World:
         self.polls_stopped = True
         self.ind_log: list = []  # (entity, indication item, call seq)
         self.fault_log: list = []  # (entity, fault item, call seq)
+        self.noop_polls = 0
         self.pending = 0  # queued non-poll events
         self.pacing = "regular"
         self.polled = (("a", "src"), ("b", "dst"))
@@ -836,7 +837,11 @@ class World:
             self.ind_log.append((ent.name, i, rec.seq))
         for f in rec.faults:
             self.fault_log.append((ent.name, f, rec.seq))
-        self.log.append(rec.render())
+        if op == "sm" and pdu is None and not rec.emitted and not rec.inds and not rec.faults and rec.exc is None \
+                and rec.pre.key() == rec.post.key():
+            self.noop_polls += 1
+        else:
+            self.log.append(rec.render())
         self.sig.append((ent.name, hk, op, rec.inb_kind, tuple(e.kind for e in rec.emitted), rec.exc.cls if rec.exc else None))
         self.states_seen.add(
             (self.a.handlers["src"].step.value, self.b.handlers["dst"].step.value, rec.post.extra)
